@@ -26,15 +26,17 @@ FS = None                 # the mounted SimFS (module global, one per process)
 
 
 class FileNode:
-    __slots__ = ("data", "ino", "flock_owner")
+    __slots__ = ("data", "ino", "flock_owner", "mtime")
 
     def __init__(self, data=b""):
         self.data = bytearray(data)
         self.ino = 0
         self.flock_owner = None        # open file description holding an exclusive flock
+        self.mtime = 0.0               # simulated time of the last modification
 
     def clone(self, idmap=None):
         n = FileNode(self.data)
+        n.mtime = self.mtime
         if idmap is not None:
             idmap[id(self)] = n
         return n
@@ -225,6 +227,8 @@ class SimFS:
             if not creat:
                 raise FileNotFoundError(errno.ENOENT, "No such file or directory", path)
             node = parent.children[name] = FileNode()
+            if self.sim is not None:
+                node.mtime = self.sim.time()
             created = True
         else:
             if excl and creat:
@@ -339,10 +343,12 @@ class SimFS:
         if isinstance(n, DirNode):
             mode = statmod.S_IFDIR | 0o755
             size = 0
+            mt = 0
         else:
             mode = statmod.S_IFREG | 0o644
             size = len(n.data)
-        return os.stat_result((mode, id(n) & 0xFFFFFF, 1, 1, 0, 0, size, 0, 0, 0))
+            mt = int(n.mtime)
+        return os.stat_result((mode, id(n) & 0xFFFFFF, 1, 1, 0, 0, size, mt, mt, mt))
 
     def sys_listdir(self, path):
         self._yield("listdir")
@@ -394,6 +400,8 @@ class SimRaw(io.RawIOBase):
         if self.pos > len(self.node.data):
             self.node.data.extend(b"\0" * (self.pos - len(self.node.data)))
         self.node.data[self.pos:self.pos + len(b)] = b
+        if fs.sim is not None:
+            self.node.mtime = fs.sim.time()
         fs._log(f"write {self.name} @{self.pos} +{len(b)}")
         self.pos += len(b)
         fs._mutated("write", self.name, {"pos": self.pos - len(b), "len": len(b)})
